@@ -45,4 +45,16 @@ PLAN = {
             {"name": "miri-drops", "flavour": "miri", "shards": 4, "shards_thorough": 32, "miriflags": TB + " " + IGN, "timeout": 1200},
         ],
     },
+    "C13": {
+        "level": "exploration",
+        "rule": "random recorder trees (depth 1-3) of Prefix / Filter (0-3 patterns, case-insens. on/off, DFA on/off) / Router "
+                "(0-4 routes, per-kind and ALL masks, overlapping and duplicate patterns incl. the empty one) / Fanout (0-3 wide) over "
+                "logging leaf recorders; per tree 4-24 describe / register+update operations over a prefix-rich name alphabet; after each "
+                "operation the leaf log is compared (as a multiset) with a reference router written from the property text. "
+                "case = (tree shape, name, kind, op class); non-trivial = tree has >= 2 layers; distinct = distinct case hashes.",
+        "assumptions": ["reference semantics: filter = substring (ASCII case-insensitive when configured), router = longest matching prefix among routes covering the kind, later duplicate wins"],
+        "legs": [
+            {"name": "native", "flavour": "native", "shards": 4, "shards_thorough": 16},
+        ],
+    },
 }
